@@ -22,6 +22,72 @@ def _fields_written(ps):
     return {e[2] for p in ps for e in p.effects if e[0] == "write" and e[1] == SELF}
 
 
+def _strategy_sequences(rep, M, B, file):
+    """ExponentialBackOff interpreted on concrete parameters: after n consecutive failures since the last reset (or construction) the reported delay is
+    min(2^(n-1), max_delay), whatever happened before the reset, and 0 right after a reset"""
+    from sa.abseval import AbsEval, AObj
+    AE = AbsEval(M)
+    key = (MOD, "ExponentialBackOff")
+    init = B.methods["__init__"]
+    thorough = rep.tier == "thorough"
+    maxes = sorted(set(list(range(1, 131)) + [255, 256, 257, 1000, 1023, 1024, 1025, 3599, 3600])) if thorough else [1, 2, 3, 5, 7, 8, 9, 10, 60, 64, 100, 1000, 3600]
+    nmax = 24 if thorough else 14
+    bad = None
+    n_calls = 0
+
+    def call(obj, name):
+        nonlocal n_calls
+        n_calls += 1
+        r = AE.apply(B.methods[name], [obj])
+        if r[0] in ("undecided", "branch"):
+            raise Undecided(f"ExponentialBackOff.{name} outside the interpreted subset: {r[1]}")
+        return r
+
+    for m in maxes:
+        for prefix in (0, 1, 2, 5, nmax):
+            obj = AObj("ExponentialBackOff", {}, cls_key=key)
+            r = AE.apply(init, [obj])
+            if r[0] != "value":
+                raise Undecided(f"ExponentialBackOff.__init__ outside the interpreted subset: {r}")
+            if "max_delay" not in obj.attrs:
+                raise Undecided("ExponentialBackOff has no public max_delay attribute after construction")
+            obj.attrs["max_delay"] = m
+            for _ in range(prefix):
+                call(obj, "failure")
+            if prefix:
+                call(obj, "reset")
+            if obj.attrs.get("max_delay") != m:
+                bad = (m, prefix, 0, f"reset() changes max_delay to {obj.attrs.get('max_delay')}")
+                break
+            r = call(obj, "current_delay_sec")
+            if r[0] != "value" or r[1] != 0:
+                bad = (m, prefix, 0, f"reports {r[1] if r[0] == 'value' else r} right after {'a reset' if prefix else 'construction'} instead of 0")
+                break
+            for n in range(1, nmax + 1):
+                rf = call(obj, "failure")
+                if rf[0] == "raise":
+                    bad = (m, prefix, n, f"failure() raises {rf[1]}")
+                    break
+                r = call(obj, "current_delay_sec")
+                want = min(2 ** (n - 1), m)
+                if r[0] != "value" or r[1] != want:
+                    bad = (m, prefix, n, f"reports {r[1] if r[0] == 'value' else r} instead of {want}")
+                    break
+            if bad:
+                break
+        if bad:
+            break
+    rep.count("strategy_calls", n_calls)
+    if bad:
+        m, prefix, n, txt = bad
+        rep.violation("R1", f"{MOD}.ExponentialBackOff.failure", "recurrence" if not prefix else "reset-state",
+                      "after n consecutive failures since the last reset the strategy does not report min(2^(n-1), max_delay)" if not prefix else
+                      "a reset does not return the strategy to its initial state: the delays after a reset depend on the failures before it", file, B.methods["failure"].node.lineno,
+                      witness=f"max_delay={m}, {prefix} failure(s) then reset, then n={n}: {txt}" if prefix else f"max_delay={m}, n={n}: {txt}")
+    else:
+        rep.ok("R1", "failure/reset sequences", f"interpreted on {len(maxes)} max_delay values x 5 histories before a reset x n = 1..{nmax}: delay = min(2^(n-1), max_delay) counted from the last reset; 0 after reset; max_delay untouched ({n_calls} calls)")
+
+
 def check(src, rep):
     M = Model(src)
     file = src.file(MOD)
@@ -38,12 +104,17 @@ def check(src, rep):
                        "failure()/reset() sequences reduce to these because reset and construction give the same single-field state; in the connect coroutine failure() sits only on the "
                        "exception path of the factory call and reset() only (and always) on its success path; every path to the factory call sleeps the computed back-off first, which is "
                        "max(strategy delay, breaker sleep if armed); the breaker flag is recomputed on every loss that is not a close. NOT decided: upper time bounds.")
-    # ---------------------------------------------------------------- R1
+    # ---------------------------------------------------------------- R1 (a): the strategy object interpreted (E-ABS) on failure/reset sequences
+    _strategy_sequences(rep, M, B, file)
+    # ---------------------------------------------------------------- R1 (b): extracted transfer functions over the whole parameter domain
     E = lambda: Engine(M, keep_props=set())
     pf, pr, pi = E().run(B.methods["failure"]), E().run(B.methods["reset"]), E().run(B.methods["__init__"])
     pc = E().run(B.methods["current_delay_sec"])
     state = _fields_written(pf)
-    rep.require(len(state) == 1, f"back-off state is not a single field: {sorted(state)}")
+    if len(state) != 1:
+        rep.notes.append(f"R1: the back-off state has several fields {sorted(state)}: the large-domain tabulation of the extracted single-field recurrence is skipped; "
+                         "the interpreted failure/reset sequences above cover max_delay 1..130 and boundaries with up to 24 failures")
+        return _rest(rep, M, CM, file)
     extra_reset = _fields_written(pr) - state
     if extra_reset:
         rep.violation("R1", f"{MOD}.ExponentialBackOff.reset", "reset-writes-configuration", f"reset() also overwrites {sorted(extra_reset)}: a configured maximum delay is silently discarded by the first successful "
@@ -137,6 +208,10 @@ def check(src, rep):
         rep.ok("R1", "recurrence", f"reported delay = min(2^(n-1), max_delay) for every max_delay in {'1..3600' if thorough else str(len(maxes)) + ' values incl. 1..130 and boundaries'} and n = 1..{NMAX} ({n_eval} evaluations of the extracted transfer functions)")
     rep.extra["exhaustive"] = bool(thorough)
 
+    return _rest(rep, M, CM, file)
+
+
+def _rest(rep, M, CM, file):
     # ---------------------------------------------------------------- R2 / R3: connect coroutine
     tc = None
     for name, f in CM.methods.items():
@@ -204,6 +279,16 @@ def check(src, rep):
         for g, pol, _ in p.guards:
             if g[0] == "cmp" and g[1] in ("LtE", "Lt") and g[3] == ("c", 0) and g[2][0] == "call" and g[2][1] == "max":
                 gt0 = (not pol, g[2])
+        # what is slept / tested must be the value the back-off function computed, nothing derived from it
+        RET = _backoff_returns(M, CM, tc)
+        odd = [x for x in slept_before if RET is not None and _nl(strip_epoch(x[1])) not in RET]
+        odd_tests = [g for g, pol, _ in p.guards if RET is not None and g[0] == "cmp" and g[3] == ("c", 0) and g[1] in ("LtE", "Lt") and g[2][0] == "op"
+                     and any(_nl(strip_epoch(t)) in RET for t in (g[2][2], g[2][3]))]
+        if odd or odd_tests:
+            bad3 += 1
+            rep.violation("R3", f"{MOD}.ConnectionManager.{tc.name}", "sleep-before-connect", "the attempt does not sleep exactly the computed back-off before connecting (the slept / tested value is derived from it, "
+                          "e.g. reduced by the time already spent)", file, tc.node.lineno, witness=show_sv(odd[0][1] if odd else odd_tests[0])[:120])
+            continue
         if gt0 is None:
             # back-off value statically 0 on this path (first branch of _get_back_off_time) or test missing
             zero = any(True for g, pol, _ in p.guards if False)
@@ -302,6 +387,15 @@ def check(src, rep):
                 okb = False
                 rep.violation("R4", f"{MOD}.ConnectionManager.{ub.name}", "breaker-flag", "the breaker flag is not recomputed as `now - last loss < threshold` on a repeated loss", file, ub.node.lineno,
                               witness=show_sv(v)[:120] if v else "flag not written")
+    # the breaker's state (flag and last-loss time) is written by nothing but its update function
+    for name, f in CM.methods.items():
+        if f is ub or name == "__init__":
+            continue
+        for n in ast.walk(f.node):
+            if isinstance(n, ast.Attribute) and isinstance(n.ctx, (ast.Store, ast.Del)) and isinstance(n.value, ast.Name) and n.value.id == "self" and n.attr in (LAST, flags[0]):
+                okb = False
+                rep.violation("R4", f"{MOD}.ConnectionManager.{name}", "breaker-state-writer", f"`{n.attr}` (loss-breaker state) is modified outside the loss update: two losses within the threshold "
+                              "no longer reliably arm the breaker", file, n.lineno)
     # call site: connect_loop calls it exactly on a loss that is not a close
     cl = CM.methods.get("connect_loop")
     rep.require(cl is not None, "anchor vanished: ConnectionManager.connect_loop")
@@ -338,6 +432,33 @@ def _flatten(sv):
         for x in sv:
             out |= _flatten(x)
     return out
+
+
+def _nl(sv):
+    """drop call-site line numbers"""
+    if isinstance(sv, tuple):
+        if sv and sv[0] == "call" and len(sv) == 4 and isinstance(sv[3], int):
+            return ("call", sv[1], tuple(_nl(x) for x in sv[2]))
+        return tuple(_nl(x) for x in sv)
+    return sv
+
+
+_RET_MEMO = {}
+
+
+def _backoff_returns(M, CM, tc):
+    """the values the back-off function can return (symbolic, line numbers dropped); None if it cannot be located"""
+    key = id(CM)
+    if key not in _RET_MEMO:
+        gb = None
+        for name, f in CM.methods.items():
+            if f is not tc and not isinstance(f.node, ast.AsyncFunctionDef) and any(isinstance(n, ast.Attribute) and n.attr == "current_delay_sec" for n in ast.walk(f.node)):
+                gb = f
+        if gb is None:
+            _RET_MEMO[key] = None
+        else:
+            _RET_MEMO[key] = {_nl(strip_epoch(p.ret)) for p in Engine(M, keep_props={"current_delay_sec"}).run(gb) if p.status == "return" and p.ret is not None}
+    return _RET_MEMO[key]
 
 
 def _path_backoff_zero(p):
